@@ -349,6 +349,13 @@ impl Lmdb {
         when: Time,
     ) -> Result<(), Error> {
         let key = Self::key_naddr_index(addr);
+        // Deletion times only move forward: an older deletion request that arrives later
+        // must not shorten what a newer one already covers.
+        if let Some(existing) = self.deleted_naddrs.get(txn, &key)? {
+            if existing >= when.as_u64() {
+                return Ok(());
+            }
+        }
         self.deleted_naddrs.put(txn, &key, &when.as_u64())?;
         Ok(())
     }
